@@ -767,11 +767,13 @@ static void explore_custom(FrameBase& f, const Gram& g, const ref::LR1& L) {
                 if (a.answer < 0) { lexfail = true; continue; }
                 toks.push_back(ref::Tok{a.answer / 64, a.off, a.answer % 64}); p += a.answer % 64; skip();
             }
+            bool have_ex = false; int ex_examined = 0;
             if (ro.horizon) viol("no-termination", "step horizon reached");
             else if (ro.bounds || ro.threw) viol("exception", ro.bounds ? ro.hit.what : ro.what);
             else if (pos_ok) {
                 ref::Run ex = ref::drive(g, rt, toks, 400, lexfail);
                 if (!ex.undefined && !ex.horizon) {
+                    have_ex = true; ex_examined = ex.terms_examined;
                     auto linecol = [&](int off) { int l = 1, c = 1; for (int k = 0; k < off; ++k) { if (w[k] == '\n') { ++l; c = 1; } else ++c; } return "[" + std::to_string(l) + ":" + std::to_string(c) + "]"; };
                     size_t endpos = w.size(); { size_t q = toks.empty() ? 0 : toks.back().off + toks.back().len; while (q < w.size() && ws_default((unsigned char)w[q])) ++q; endpos = q; }
                     std::string want;
@@ -795,6 +797,17 @@ static void explore_custom(FrameBase& f, const Gram& g, const ref::LR1& L) {
                     if (g_script.asks.size() != plain.size()) viol("verbose-changes-lexer-requests", std::to_string(g_script.asks.size()) + " match() calls in the verbose parse, " + std::to_string(plain.size()) + " in the plain one");
                     else for (size_t k = 0; k < plain.size(); ++k) { if (g_script.asks[k].off != plain[k].off) { viol("verbose-changes-lexer-requests", "different positions asked"); break; } if (!g_script.asks[k].verbose) { viol("wrong-options-passed-to-lexer", "match() was told verbose=false in a verbose parse"); break; } }
                     if (rv.ok != ro.ok) viol("verbose-changes-outcome", "verbose parse with the same lexer answers gives another result");
+                    else if (have_ex && cfg.has("C16") && g_script.asks.size() == plain.size()) {
+                        // C16: the trace names the recognised terms - one 'PARSE: Recognized <name>' line per term the custom lexer delivered, in order, and <eof> when the driver reached it
+                        std::vector<std::string> got, wantv; std::istringstream is(rv.err); std::string line;
+                        while (std::getline(is, line)) { size_t q = line.find(" PARSE: Recognized "); if (q == std::string::npos) continue; std::string nm = line.substr(q + 19); while (!nm.empty() && nm.back() == ' ') nm.pop_back();
+                            if (!got.empty() && nm == term_name(g, g.eof()) && got.back() == nm) continue;   // the end of input may be looked at again (no lexer request is involved; the generated-lexer walk accepts the same)
+                            got.push_back(nm); }
+                        for (const ref::Tok& t : toks) wantv.push_back(term_name(g, t.term));
+                        if (!lexfail && ex_examined > (int)toks.size()) wantv.push_back(term_name(g, g.eof()));
+                        if (got != wantv) { std::string a, b; for (auto& x : got) a += x + " "; for (auto& x : wantv) b += x + " "; add_viol("C16", "trace-omits-recognised-terms", f, g, w, "input '" + in_vis + "' script " + script_txt + ": the verbose trace names the recognised terms [ " + a + "], the custom lexer delivered [ " + b + "]"); }
+                        ctr["C16.custom_traces"]++;
+                    }
                 }
                 g_script.taken = taken; g_script.alts = alts;
             }
@@ -829,7 +842,15 @@ static void explore(FrameBase& f, const Gram& g) {
         if ((f.off || f.noff) && !br.bounds) { std::fprintf(stderr, "HARNESS ERROR: lifted frame %s: construction failed under the harness's own limits: %s (grammar %s)\n", f.name.c_str(), br.what.c_str(), g.text().c_str()); std::exit(2); }
         if (cfg.has("C12")) {
             if (br.bounds) add_viol("C12", "item-vector-overflow", f, g, "", std::string("default limits: ") + br.hit.what + " beyond capacity " + std::to_string(br.hit.cap) + " inside the table construction");
-            else add_viol("C12", "default-state-cap-too-small", f, g, "", "construction with default limits failed: " + br.what + " (reference automaton has " + std::to_string(can.st.size()) + " states)");
+            else {
+                // known finding default-state-cap-is-item-count, keyed by call site and condition: the default state cap is the number of LR(1) items,
+                // (sum over the rules of length + 1) * (terms + 2) + 2 - computed here from the grammar, not read from the header - and the refusal is the
+                // state-count one while the canonical automaton really has more states than that. Any other refusal under the default limits stays unlisted.
+                size_t items = 0; for (int i = 0; i < g.R; ++i) items += size_t(g.n[i]) + 1;
+                const size_t documented_default = items * size_t(g.T + 2) + 2;
+                const bool known = br.what.find("State count exceeds the cap") != std::string::npos && can.st.size() > documented_default;
+                add_viol("C12", "default-state-cap-too-small", f, g, "", "construction with default limits failed: " + br.what + " (reference automaton has " + std::to_string(can.st.size()) + " states, the default cap for this grammar is " + std::to_string(documented_default) + ")", known ? "default-state-cap-is-item-count" : "");
+            }
         }
         return;
     }
@@ -839,7 +860,7 @@ static void explore(FrameBase& f, const Gram& g) {
     ctr["cells_compared"] += tc.cells;
     if (!tc.equal) ctr["table_mismatch"]++;
     if (f.custom_lexer) {
-        if (cfg.has("C18") && (lr1 || (!L->any_rr && !L->any_acc && !L->any_sr)) && tc.equal) explore_custom(f, g, *L);
+        if ((cfg.has("C18") || cfg.has("C16")) && (lr1 || (!L->any_rr && !L->any_acc && !L->any_sr)) && tc.equal) explore_custom(f, g, *L);
         return;
     }
     if (cfg.has("C12")) { ctr["C12.table_evals"]++; outcomes["C12"].insert("states" + std::to_string(std::min(d.nstates, 40))); }
